@@ -5,4 +5,5 @@ Extraction Language OCaml.
 Set Extraction KeepSingleton.
 Extraction "extracted/c17/model.ml" Refcount.step Refcount.run Refcount.io_init Refcount.cleanb
   Refcount.mstep Refcount.mrun Refcount.mll_init
+  Refcount.zero_attr Refcount.attr_at
   BinInt.Z.of_nat.   (* pulls in Z / positive, which the shared ocaml/zutil.ml expects *)
